@@ -29,7 +29,7 @@ def _pairs(k, masks, rng, cap):
         return [(m, None) for m in masks]
     pairs = [(a, b) for a in masks for b in masks]
     if len(pairs) > cap:
-        pairs = [(masks[0], masks[0])] + rng.sample(pairs, cap - 1)
+        pairs = [(masks[0], masks[0])] + rng.sample(pairs, min(len(pairs), cap - 1))
     return pairs
 
 
@@ -96,10 +96,117 @@ def c06_m(v, tier, opts):
                     for mp in (0, 1, w):
                         masks = kernels.masks_for(L, k.null_aware, tier_, rng)
                         if len(masks) > 10:
-                            masks = [masks[0]] + rng.sample(masks[1:], 9 if tier_ == "quick" else 25)
+                            masks = [masks[0]] + rng.sample(masks[1:], min(len(masks) - 1, 9 if tier_ == "quick" else 25))
                         for a, b in _pairs(k, masks, rng, 10 if tier_ == "quick" else 40):
                             yield (L, w, mp, a, b)
         family.run_family(v, E, "C06", FLOAT_KERNELS, tier, shapes, opts, positions_of=lambda L, w: set(range(w, L)))
+    finally:
+        engine_stats(v, E)
+        E.close()
+
+
+def _same_vf(a, b):
+    return a.num is b.num and a.den is b.den and a.nan is b.nan and a.inf is b.inf
+
+
+def c06_prefix_m(v, tier, opts):
+    """Prefix law, relational: each float kernel entry point is executed from its MIR on a series and on every proper prefix of
+    it (same symbols, same window, same explicit or omitted min_periods); output i of the prefix run must be output i of the full
+    run. This covers what the driver-protocol argument leaves open: the entry point's own preamble (window / min_periods
+    normalisation) must not depend on the series length. Identical terms need no solver; anything else is a z3 query."""
+    from . import replay
+    E = Engine(["tea-rolling", "tea-core"])
+    only = (opts or {}).get("only")
+    try:
+        for name in FLOAT_KERNELS:
+            if only and not re.search(only, name):
+                continue
+            k = kernels.KERNELS[name]
+            rng = random.Random(606 + seed() + len(name))
+            t0 = time.time()
+            q = ident = 0
+            bad = unknown = False
+            v.functions.add(k.fn)
+            Ls = [5] if tier == "quick" else [5, 6]
+            try:
+                for L in Ls:
+                    heavy = name.endswith(("skew", "kurt", "vcorr", "all_sse"))
+                    for w in ([2, L, L + 2] if tier == "quick" else [1, 2, 4, L, L + 2]):
+                        if w < k.min_w or bad:
+                            continue
+                        for mp in ([None, 1, L - 1, L, L + 1] if tier == "quick" else [None, 1, 2, L - 1, L, L + 1, L + 3]):
+                            if bad:
+                                break
+                            masks = [[True] * L]
+                            if k.null_aware:
+                                m2 = [rng.random() < 0.7 for _ in range(L)]
+                                masks.append(m2)
+                            for mask in masks:
+                                mask2 = ([True] * L if not k.null_aware else [rng.random() < 0.8 for _ in range(L)]) if k.two else None
+                                full = E.run_kernel(k.fn, w, mp, mask, mask2, pre_assume=kernels.guard_pre(k, L, w, mask, mask2))
+                                if full.outputs is None or len(full.outputs) != L:
+                                    continue            # reported by C02 / C05
+                                for C in range(1, L):
+                                    if mp is None and C < w:
+                                        continue        # omitted min_periods: only for len >= w (statement)
+                                    pre = E.run_kernel(k.fn, w, mp, mask[:C], mask2[:C] if mask2 else None, share=full.ex)
+                                    if pre.outputs is None or len(pre.outputs) != C:
+                                        continue
+                                    base = list(full.ex.assumptions)
+                                    for i in range(C):
+                                        a, b = pre.outputs[i], full.outputs[i]
+                                        if a is None or b is None:
+                                            continue
+                                        if k.pick is not None:
+                                            a, b = a.items[k.pick], b.items[k.pick]
+                                        if _same_vf(a, b):
+                                            ident += 1
+                                            continue
+                                        for badq, msg in ((smt.ne(a.nan, b.nan), "null flag of a prefix result differs from the result on the whole series"),
+                                                          (smt.and_(smt.not_(a.nan), smt.not_(b.nan), value_differs(E, a, b, base, full.ex, E.norm_stats)),
+                                                           "value of a prefix result differs from the result on the whole series")):
+                                            st, model = E.ask(base + [badq])
+                                            q += 1
+                                            if st == "unknown":
+                                                if not unknown:
+                                                    v.inconcl(f"{name}: solver unknown (prefix {C} of {L}, w={w}, mp={mp}, position {i})")
+                                                unknown = True
+                                            elif st == "sat":
+                                                key = f"{name}::prefix::{msg}"
+                                                if v.is_known(key):
+                                                    v.note_known(key)
+                                                    bad = True
+                                                    break
+                                                x = family.to_floats(model, "x", mask)
+                                                y = family.to_floats(model, "y", mask2) if mask2 else None
+                                                g_full = replay.native(k.native, w, mp, x, y)
+                                                g_pre = replay.native(k.native, w, mp, x[:C], y[:C] if y else None)
+                                                path = replay.save_case("C06", f"prefix_{name}_L{L}_C{C}_w{w}_mp{'none' if mp is None else mp}",
+                                                                        {"property": "C06", "kind": "prefix", "kernel": name, "native_fn": k.native, "window": w,
+                                                                         "min_periods": mp, "x": x, "y": y, "cut": C, "position": i,
+                                                                         "native_full": str(g_full), "native_prefix": str(g_pre)})
+                                                differs = isinstance(g_full, tuple) != isinstance(g_pre, tuple) or (
+                                                    not isinstance(g_full, tuple) and any(
+                                                        not (g_pre[j] == g_full[j] or (g_pre[j] != g_pre[j] and g_full[j] != g_full[j])) for j in range(C)))
+                                                if differs:
+                                                    v.failure(key, path, f"{k.native}(w={w}, mp={mp}) on the first {C} of x={x}" + (f", y={y}" if y else "") +
+                                                              f" gives {g_pre}, on the whole series {g_full}")
+                                                else:
+                                                    v.inconcl(f"{name}: prefix counterexample does not reproduce natively; case {path}")
+                                                bad = True
+                                                break
+                                        if bad:
+                                            break
+                                    if bad:
+                                        break
+                                if bad:
+                                    break
+            except (ExecError, MirError) as e:
+                v.inconcl(f"{name}: cannot encode the prefix runs ({e})")
+            v.evaluations += q + ident
+            if (q + ident) and not bad and not unknown:
+                v.nontrivial += 1
+            log(f"  [M] prefix {name}: {ident} outputs identical as terms, {q} solver queries, {'FAIL' if bad else 'ok'} ({time.time() - t0:.1f}s)")
     finally:
         engine_stats(v, E)
         E.close()
@@ -124,7 +231,7 @@ def c08_m(v, tier, opts):
                 for L in ([1, 2, 3, 4] if tier == "quick" else [1, 2, 3, 4, 5]):
                     masks = [list(m) for m in itertools.product([True, False], repeat=L)]
                     if len(masks) > 8:
-                        masks = [masks[0]] + rng.sample(masks[1:], 7 if tier == "quick" else 15)
+                        masks = [masks[0]] + rng.sample(masks[1:], min(len(masks) - 1, 7 if tier == "quick" else 15))
                     for mask in masks:
                         for mp in ([0, 2, L] if a.has_mp else [0]):
                             for p in range(L + 1):
